@@ -4,6 +4,7 @@
 //!   vh run                                   → reads op lines on stdin, executes each against
 //!                                              the real implementation, one output line per op
 mod c15;
+mod tx;
 mod util;
 
 use std::io::{BufRead, Write};
@@ -31,6 +32,7 @@ fn main() {
             let mut out = Vec::new();
             match stream {
                 "c15" => c15::generate(seed, cases, &mut out),
+                "tx" => tx::generate(seed, cases, &mut out),
                 _ => {
                     eprintln!("unknown stream {stream}");
                     std::process::exit(2);
@@ -46,15 +48,20 @@ fn main() {
             let stdin = std::io::stdin();
             let stdout = std::io::stdout();
             let mut w = std::io::BufWriter::new(stdout.lock());
+            let mut txst = tx::TxState_::new();
             for line in stdin.lock().lines() {
                 let line = line.unwrap();
                 if line.starts_with('#') {
                     writeln!(w, "{}", line).unwrap();
+                    if line.starts_with("# case") {
+                        txst = tx::TxState_::new();
+                    }
                     continue;
                 }
                 let toks: Vec<&str> = line.split_whitespace().collect();
                 let res = match toks.first().copied() {
                     Some("c15") => c15::run(&toks[1..]),
+                    Some("tx") => tx::run(&mut txst, &toks[1..]),
                     _ => "bad-op".to_string(),
                 };
                 writeln!(w, "{}", res).unwrap();
